@@ -673,6 +673,7 @@ func (c *Client) Do(ctx context.Context, q Query) (err error) {
 			span.End()
 		}()
 	}
+	parentCtx := ctx
 	g, ctx := errgroup.WithContext(ctx)
 	done := make(chan struct{})
 	var (
@@ -800,6 +801,12 @@ func (c *Client) Do(ctx context.Context, q Query) (err error) {
 			// should not be prepended by data that was encoded for this
 			// query, but was not flushed.
 			c.writer.Reset()
+		}
+		if ctxErr := parentCtx.Err(); ctxErr != nil && !errors.Is(err, ctxErr) {
+			// Query can fail with deadline error of connection, which is set
+			// from context. Propagating context error to allow matching it,
+			// like errors.Is(err, context.DeadlineExceeded).
+			err = multierr.Append(err, ctxErr)
 		}
 		return err
 	}
